@@ -49,7 +49,7 @@ Ltac cnsimp :=
   repeat (rewrite ?cn_incn_eq, ?cn_setn_eq in *;
           try rewrite cn_incn_ne in * by discriminate;
           try rewrite cn_setn_ne in * by discriminate);
-  cbn [c_lm c_all c_pwok setn incn set_muts add_pwok] in *.
+  cbn [c_lm c_all c_pwok c_kl setn incn set_muts add_pwok add_kl] in *.
 
 (* ---- equality reflected by the boolean equalities ---- *)
 Lemma pw_res_eqb_eq : forall a b, pw_res_eqb a b = true -> a = b.
